@@ -327,6 +327,7 @@ func c37Divisions(c *Ctx, fns []*ssa.Function, reach map[*ssa.Function]string) {
 
 	c37TypeAsserts(c, fns, reach)
 	c37MustCalls(c, fns, reach)
+	c37CoinSubs(c, fns, reach)
 	if os.Getenv("C37SUB_DEBUG") != "" {
 		// exploration aid, not a rule: unsigned subtractions in consensus code without a dominating bound
 		for _, f := range c.P.AllFuncs {
@@ -502,3 +503,88 @@ func c37MustCalls(c *Ctx, fns []*ssa.Function, reach map[*ssa.Function]string) {
 }
 
 var c37MustAudited = map[string]string{}
+
+// c37CoinSubs: sdk.Coin / sdk.Coins subtraction panics when the result would be negative
+// (Coin.Sub, Coin.SubAmount, Coins.Sub, DecCoins.Sub); the Safe* variants return an error.
+func c37CoinSubs(c *Ctx, fns []*ssa.Function, reach map[*ssa.Function]string) {
+	c.Rule("C37g coin subtraction: every panicking coin subtraction (Coin.Sub, Coin.SubAmount, Coins.Sub, DecCoins.Sub — 'negative coin amount') reachable from block processing is dominated by a test that the minuend covers the subtrahend (IsGTE / !IsLT / IsAllGTE / !IsAnyGT … on the same operands), or is listed in the audited table with the reason; the SafeSub variants return an error instead and are not sites")
+	n := 0
+	for _, f := range fns {
+		per := map[string]int{}
+		for _, b := range f.Blocks {
+			if b == f.Recover {
+				continue
+			}
+			for _, in := range b.Instrs {
+				call := ir.CallOf(in)
+				if call == nil || call.IsInvoke() {
+					continue
+				}
+				name := ir.CalleeName(call)
+				op := ""
+				switch name {
+				case "github.com/cosmos/cosmos-sdk/types.Coin.Sub", "github.com/cosmos/cosmos-sdk/types.Coin.SubAmount",
+					"github.com/cosmos/cosmos-sdk/types.Coins.Sub", "github.com/cosmos/cosmos-sdk/types.DecCoins.Sub", "github.com/cosmos/cosmos-sdk/types.DecCoin.Sub":
+					op = name[strings.LastIndex(name, "types.")+6:]
+				}
+				if op == "" {
+					continue
+				}
+				n++
+				per[op]++
+				key := ir.FuncName(f) + "/" + op
+				if per[op] > 1 {
+					key += "#" + itoa(per[op])
+				}
+				// a dominating comparison of the two operands
+				x, y := ir.Desc(call.Args[0]), ""
+				if len(call.Args) > 1 {
+					y = ir.Desc(call.Args[1])
+				}
+				guarded := ""
+				for _, g := range ir.Guards(in) {
+					fct := g.Fact
+					cmp := strings.Contains(fct, "IsGTE)(") || strings.Contains(fct, "IsLT)(") || strings.Contains(fct, "IsAllGTE)(") || strings.Contains(fct, "IsAllLTE)(") || strings.Contains(fct, "IsAnyGT)(") || strings.Contains(fct, "IsAllGT)(") || strings.Contains(fct, "IsAnyGTE)(") ||
+						strings.Contains(fct, ".GTE)(") || strings.Contains(fct, ".LT)(") || strings.Contains(fct, ".GT)(") || strings.Contains(fct, ".LTE)(")
+					if cmp && !strings.Contains(x, "…") && strings.Contains(fct, trunc(x, 60)) && (y == "" || strings.Contains(fct, trunc(strings.TrimSuffix(y, ")"), 40))) {
+						guarded = fct
+					}
+				}
+				if why, ok := c37CoinSubAudited[key]; ok {
+					c.Audit("C37g/"+key, c.P.InstrPos(in), why)
+				} else if guarded != "" && os.Getenv("C37COIN_DEBUG") == "" {
+					c.OK("C37g/"+key, c.P.InstrPos(in), "dominated by "+trunc(guarded, 140))
+				} else if os.Getenv("C37COIN_DEBUG") != "" {
+					c.Note("C37g/debug/"+key, c.P.InstrPos(in), trunc(x, 90)+" − "+trunc(y, 90)+" guarded="+trunc(guarded, 100))
+				} else {
+					c.Fail("C37g/"+key, c.P.InstrPos(in), "panicking coin subtraction "+trunc(x, 80)+" − "+trunc(y, 80)+" reachable from block processing ("+reach[f]+") without a dominating test that the minuend covers the subtrahend: a larger subtrahend panics ('negative coin amount') and halts the chain")
+				}
+			}
+		}
+	}
+	c.Note("C37g/summary", "-", itoa(n)+" panicking coin subtractions under block processing")
+}
+
+// c37CoinSubAudited: panicking coin subtractions under block processing, each confirmed
+// by reading. Most are "whole minus a sum of rounded-down parts of that whole": beliefs
+// about values, recorded as such. Keyed by function/operation(#k in source order).
+var c37CoinSubAudited = map[string]string{
+	"x/dualstaking/keeper.Keeper.CalcRewards/Coins.Sub":                               "belief: providerReward = total·self/(self+delegations) + commission% of total·delegations/(self+delegations), each rounded down, commission <= 100 (validated when staking): not above totalReward in any denom",
+	"x/dualstaking/keeper.Keeper.PayContributors/Coins.Sub":                           "directly behind the error return on !leftRewards.IsAnyGTE(rewardCoins); rewardCoins is ⌊contributorReward/n⌋ and is subtracted n times",
+	"x/dualstaking/keeper.Keeper.RewardProvidersAndDelegators/Coins.Sub":              "belief: contributorReward is totalReward times the spec's contributor percentage (validated within (0, max <= 1] in Spec.ValidateSpec) rounded down",
+	"x/dualstaking/keeper.Keeper.UnbondUniformProviders/Coin.Sub":                     "in the else branch of delegation.Amount.Amount.GTE(amount.Amount): the empty-provider delegation is smaller than the amount",
+	"x/dualstaking/keeper.Keeper.UnbondUniformProviders/Coin.Sub#2":                   "under delegations[i].Amount < amount/(n−i) <= amount",
+	"x/dualstaking/keeper.Keeper.UnbondUniformProviders/Coin.Sub#3":                   "coinToDeduct = ⌊amount/(n−i)⌋ <= amount",
+	"x/dualstaking/keeper.Keeper.UnbondUniformProviders/Coin.Sub#4":                   "in the else branch of delegations[i].Amount < amountToDeduct",
+	"x/dualstaking/keeper.Keeper.UnbondUniformProviders/Coin.Sub#5":                   "under delegations[i].Amount.Amount.LT(amount.Amount)",
+	"x/dualstaking/keeper.Keeper.UnbondUniformProviders/Coin.Sub#6":                   "amount − amount",
+	"x/dualstaking/keeper.Keeper.updateDelegatorsReward/Coins.Sub":                    "belief: the used total is the sum over delegations of ⌊delegatorsReward·credit_i/Σcredit⌋ with the same Σcredit (C08b checks this shape)",
+	"x/dualstaking/types.Delegation.SubAmount/Coin.Sub":                               "only caller decreaseDelegation, past the error return on delegation.Amount.IsLT(amount) (rule C06d)",
+	"x/rewards/keeper.Keeper.ContributeToValidatorsAndCommunityPool/Coin.SubAmount":   "belief: the community part is ⌊reward·communityParticipation⌋ with validators + community participation <= 1 (CalculateContributionPercentages returns an error above 100%)",
+	"x/rewards/keeper.Keeper.ContributeToValidatorsAndCommunityPool/Coin.SubAmount#2": "same as the first subtraction, for the validators part",
+	"x/rewards/keeper.Keeper.DistributeMonthlyBonusRewards/Coins.Sub":                 "belief: RewardProvidersAndDelegators returns zero coins with an error and otherwise the provider's part of the reward it was given (log detail only)",
+	"x/rewards/keeper.Keeper.distributeIprpcRewards/Coins.Sub":                        "belief: UsedReward sums ⌊fund·cu_i/Σcu⌋ over the spec's providers (C42d checks this shape)",
+	"x/rewards/keeper.Keeper.distributeIprpcRewards/Coins.Sub#2":                      "belief: as in DistributeMonthlyBonusRewards (log detail only)",
+	"x/subscription/keeper.Keeper.RewardAndResetCuTracker/Coins.Sub":                  "belief: as in DistributeMonthlyBonusRewards, and only on the err == nil branch (log detail only)",
+	"x/subscription/keeper.Keeper.addCuTrackerTimerForSubscription/Coin.SubAmount":    "creditReward = ⌊credit/DurationLeft⌋ <= credit for DurationLeft >= 1 (see the audited division there)",
+}
